@@ -104,8 +104,16 @@ def build(rec: Dict[str, Any], seed: int, axis_aligned: bool = False) -> Built:
       name = f"j{b}_{k}"
       out.joints.append((name, jt, b))
       a = ""
+      poly = lambda lo, hi: _v(r.uniform(lo, hi)) + (f" {_v(r.uniform(0.1, 0.5 * hi))} {_v(r.uniform(0.1, 0.5 * hi))}" if F("poly") or r.random() < 0.4 else "")
       if jt == "free":
-        xs.append(f'<freejoint name="{name}"/>')
+        fa = ""
+        if F("spring"):
+          fa += f' stiffness="{poly(1, 10)}"'
+        if F("damper"):
+          fa += f' damping="{poly(0.05, 1)}"'
+        if F("armature"):
+          fa += f' armature="{_v(r.uniform(0.01, 0.1))}"'
+        xs.append(f'<joint name="{name}" type="free"{fa}/>' if fa else f'<freejoint name="{name}"/>')
         continue
       if jt in ("hinge", "slide"):
         out.scalar_joints.append(name)
@@ -115,15 +123,15 @@ def build(rec: Dict[str, Any], seed: int, axis_aligned: bool = False) -> Built:
           lo, hi = sorted(r.uniform(-0.6, 0.6, size=2))
           a += f' limited="true" range="{_v(lo)} {_v(hi + 0.05)}"' + (f' margin="{_v(r.uniform(0, 0.05))}"' if F("margin") else "")
         if F("spring"):
-          a += f' stiffness="{_v(r.uniform(1, 20))}" springref="{_v(r.uniform(-0.3, 0.3))}"'
+          a += f' stiffness="{poly(1, 20)}" springref="{_v(r.uniform(-0.3, 0.3))}"'
       elif jt == "ball":
         if lim_j and r.random() < 0.7:
           a += f' limited="true" range="0 {_v(r.uniform(0.2, 1.0))}"'
         if F("spring"):
-          a += f' stiffness="{_v(r.uniform(1, 20))}"'
+          a += f' stiffness="{poly(1, 20)}"'
       a += f' pos="{_v(r.uniform(-0.05, 0.05, size=3))}"'
       if F("damper"):
-        a += f' damping="{_v(r.uniform(0.05, 2))}"'
+        a += f' damping="{poly(0.05, 2)}"'
       if F("armature"):
         a += f' armature="{_v(r.uniform(0.01, 0.3))}"'
       if F("frictionloss"):
